@@ -468,7 +468,7 @@ def _bytes_ty(ty):
     return "Vec<u8>" in ty or "[u8" in ty
 
 
-def _content_flow(body):
+def _content_flow(body, ty_ok=None):
     """flow-insensitive def-use edges between locals whose type can hold frame bytes (Vec<u8>, [u8], tuples/options/references of
     them): src local -> dst local.  Scalars (lengths, CRCs, flags) carry no frame content and are not followed."""
     from ..common import _rv_operands
@@ -480,8 +480,10 @@ def _content_flow(body):
                 return op[k]["l"]
         return None
 
+    ty_ok = ty_ok or _bytes_ty
+
     def ok(l):
-        return l is not None and _bytes_ty(body.locals[l]["ty"])
+        return l is not None and ty_ok(body.locals[l]["ty"])
 
     for bb in sorted(body.reachable(0)):
         for st in body.blocks[bb]["stmts"]:
@@ -594,6 +596,9 @@ def run(ctx):
     from . import c08
     c08.rule_r7(facts, _Retag6(ctx))
     ctx.floor("C13.R6", 1, "advanced copies of the deframer's carried state (or the statement that there are none)")
+    from . import c17
+    c17.rule_r3(facts, ctx, rule_id="C13.R8", scope=lambda b: b.self_adt == DEFRAMER)
+    ctx.floor("C13.R8", 1, "HdlcDeframer::work consumes its whole window (same rule as C17.R3)")
     rule_r7(facts, ctx)
     ctx.floor("C13.R7", 1, "push downstream of find_right_crc (or the statement that no repair step returns a buffer)")
     rule_r5(facts, ctx)
